@@ -206,6 +206,25 @@ def run_one(mod, tier, seed=None, values=None):
         res.scenario = dict(note="timed out", draws=len(tape.log))
     except HarnessError:
         raise
+    except Exception as ex:
+        # An exception that travelled through a frame of the tree under test escaped from hio into the harness: hio
+        # either raised it or let a (simulated) system error through.  No case on the unchanged tree does that, every
+        # check calls hio only in ways its documentation allows, so this is reported as a violation of the property the
+        # case exercises (it replays like any other).  An exception that never touched the tree is a harness bug.
+        from . import tree as _tree
+        src = os.path.realpath(_tree.SRC) + os.sep
+        frames = traceback.extract_tb(ex.__traceback__)
+        inside = [f for f in frames if os.path.realpath(f.filename).startswith(src)]
+        if not inside:
+            raise HarnessError("harness exception in %s: %s\n%s" % (mod.PID, repr(ex), traceback.format_exc())) from ex
+        f = inside[-1]
+        res = Result()
+        res.violate("code-under-test-raised", "%s: %s escaped from hio (%s:%d in %s) into the harness call %s" % (
+            type(ex).__name__, str(ex)[:160], os.path.relpath(f.filename, src), f.lineno, f.name,
+            " > ".join("%s:%d" % (os.path.basename(g.filename), g.lineno) for g in frames[:3])))
+        res.scen_digest = digest(tape.recorded())
+        res.event_digest = "raised"
+        res.scenario = dict(note="exception escaped from the code under test", exception=repr(ex)[:300], draws=len(tape.log))
     except BaseException as ex:  # a bug in the harness, never a violation
         raise HarnessError("harness exception in %s: %s\n%s" % (
             mod.PID, repr(ex), traceback.format_exc())) from ex
